@@ -11,6 +11,7 @@ instance::/body:: columns.
 from __future__ import annotations
 
 import json
+import re
 import os
 
 from .. import common, drive, gen, render, xdiff
@@ -52,6 +53,11 @@ def make_form(rng, i):
         f.settings["add_none_option"] = rng.choice(["yes", "true"])
         f.survey.append(Row("q", f"select_multiple {ln}", "sm_none_a", {"label": "A"}))
         f.survey.append(Row("q", f"select_multiple {ln}", "sm_none_b", {"label": "B"}))
+        if rng.random() < 0.5 and all(re.match(r"^[A-Za-z_][A-Za-z0-9_.-]*$", c["name"]) for c in f.choices[ln]):
+            # a loop over the very list those selects read (in the workbook's JSON form the loop's columns and the selects' choices are one object)
+            lp = Row("group", f"begin loop over {ln}", "lp_none", {"label": "per"}, [Row("q", "integer", "lp_cnt", {"label": "n %(name)s"})])
+            lp.meta["end_type"] = "end loop"
+            f.survey.append(lp)
     if rng.random() < 0.15:
         # names that coincide with pyxform's own field names, used as data: a custom instance attribute, a language
         for r in [r for r, _ in f.walk() if r.kind == "q"][:2]:
